@@ -155,9 +155,22 @@ class Ctx:
         self.seed = seed
         self.rng = random.Random(seed)
         self.t0 = time.time()
-        self.work = os.path.join(WORK, prop)
+        # private scratch directory per run (concurrent runs of one property must not wipe each
+        # other's generated case files); removed at exit, stale ones (> 6 h) are swept here
+        base = os.path.join(WORK, prop)
+        os.makedirs(base, exist_ok=True)
+        try:
+            for d in os.listdir(base):
+                dp = os.path.join(base, d)
+                if os.path.isdir(dp) and time.time() - os.stat(dp).st_mtime > 6 * 3600:
+                    shutil.rmtree(dp, ignore_errors=True)
+        except OSError:
+            pass
+        self.work = os.path.join(base, 'run-%d' % os.getpid())
         shutil.rmtree(self.work, ignore_errors=True)
         os.makedirs(self.work, exist_ok=True)
+        import atexit
+        atexit.register(shutil.rmtree, self.work, True)
         self.violations = []      # (replay path, found_input: bool)
         self.known_hits = []
         self.cov = {'evaluations': 0, 'distinct_nontrivial': 0, 'samples': [], 'rule': '',
